@@ -20,15 +20,40 @@ Theorem C11_changeset_exact_refuted : ~ changeset_exact_full.
 Proof. exact changeset_exact_refuted. Qed.
 Print Assumptions C11_changeset_exact_refuted.
 
-(* the setters do not always terminate: a folder placed below its own previous path (DESIGN P-8) *)
+(* OLD code (model variant legacy = true; fixed in /repo by 029c8f6 and ccb41ee): a folder placed below
+   its own previous path, and the changed-flag repair with both sides flagged without ids, recursed
+   without bound *)
+Theorem C11_legacy_update_kids_terminates_refuted : ~ legacy_setters_terminate_full.
+Proof. exact legacy_update_kids_terminates_refuted. Qed.
+Print Assumptions C11_legacy_update_kids_terminates_refuted.
+
+Theorem C11_legacy_changed_setter_terminates_refuted : ~ legacy_setters_terminate_full.
+Proof. exact legacy_changed_setter_terminates_refuted. Qed.
+Print Assumptions C11_legacy_changed_setter_terminates_refuted.
+
+(* the code as it is: both old witnesses run to completion ... *)
+Theorem C11_fixed_witnesses_terminate :
+  (exists s, run_ops E_id init_state (w_kids 1) = Ok s) /\ (exists s, run_ops E_id init_state w_changed = Ok s).
+Proof. exact fixed_witnesses_terminate. Qed.
+Print Assumptions C11_fixed_witnesses_terminate.
+
+(* ... the write of `changed` returns with one unit of fuel, for every state and value ... *)
+Theorem C11_set_changed_total : forall E f fin e sd v s,
+  legacy E = false -> e < length (ents s) -> exists s', exec E (S f) (CChg fin e sd v) s = Ok s'.
+Proof. exact set_changed_total. Qed.
+Print Assumptions C11_set_changed_total.
+
+(* ... and _update_kids skips the renamed folder itself, whatever the recursive call would do ... *)
+Theorem C11_kid_step_skips_self : forall E rec e sd pp p s en,
+  legacy E = false -> get_ent s e = Ok en -> kid_step E rec e sd pp p e s = Ok s.
+Proof. exact kid_step_self. Qed.
+Print Assumptions C11_kid_step_skips_self.
+
+(* ... but termination of the setters is STILL false: a folder moved below one of its own child
+   folders (three events, witness w_kids2) makes the two folders children of each other's move *)
 Theorem C11_update_kids_terminates_refuted : ~ setters_terminate_full.
 Proof. exact update_kids_terminates_refuted. Qed.
 Print Assumptions C11_update_kids_terminates_refuted.
-
-(* ... and the changed-flag repair recursion when both sides are flagged without ids *)
-Theorem C11_changed_setter_terminates_refuted : ~ setters_terminate_full.
-Proof. exact changed_setter_terminates_refuted. Qed.
-Print Assumptions C11_changed_setter_terminates_refuted.
 
 (* ---- what holds (clauses (i)-(iii); IdxJ = idx_found /\ idx_slots, idx_unique follows) ----
    for EVERY state satisfying the invariant (not only reachable ones), every provider
